@@ -6,6 +6,7 @@ import (
 	"fmt"
 	"sort"
 	"strings"
+	"sync"
 	"testing"
 	"time"
 
@@ -30,7 +31,20 @@ import (
 
 type recHandler struct {
 	id  string
+	mu  sync.Mutex
 	got []string
+}
+
+func (h *recHandler) add(s string) {
+	h.mu.Lock()
+	h.got = append(h.got, s)
+	h.mu.Unlock()
+}
+
+func (h *recHandler) events() []string {
+	h.mu.Lock()
+	defer h.mu.Unlock()
+	return append([]string(nil), h.got...)
 }
 
 func evKey(o interface{}) string {
@@ -41,15 +55,15 @@ func evKey(o interface{}) string {
 	return u.GetKind() + "/" + u.GetName() + "@" + u.GetResourceVersion()
 }
 
-func (h *recHandler) OnAdd(o interface{}, initial bool) { h.got = append(h.got, "add "+evKey(o)) }
+func (h *recHandler) OnAdd(o interface{}, initial bool) { h.add("add " + evKey(o)) }
 func (h *recHandler) OnUpdate(o, n interface{}) {
 	if evKey(o) == evKey(n) {
-		h.got = append(h.got, "resync "+evKey(n))
+		h.add("resync " + evKey(n))
 		return
 	}
-	h.got = append(h.got, "update "+evKey(o)+"->"+evKey(n))
+	h.add("update " + evKey(o) + "->" + evKey(n))
 }
-func (h *recHandler) OnDelete(o interface{}) { h.got = append(h.got, "delete "+evKey(o)) }
+func (h *recHandler) OnDelete(o interface{}) { h.add("delete " + evKey(o)) }
 
 type modelHandler struct {
 	h      *recHandler
@@ -218,7 +232,8 @@ func (x *c18World) apply(op string) {
 		} else {
 			sb.ri.Informer().AddEventHandlerWithResyncPeriod(mh.h, time.Second)
 			// the per-handler resync goroutine creates its ticker asynchronously
-			for i := 0; i < 2000 && len(vtime.Tickers()) == before; i++ {
+			// (liveness wait with a generous watchdog; it only ever elapses when the goroutine never starts)
+			for i := 0; i < 600000 && len(vtime.Tickers()) == before; i++ {
 				time.Sleep(100 * time.Microsecond)
 			}
 			if tk := vtime.Tickers(); len(tk) > before {
@@ -264,7 +279,7 @@ func (x *c18World) apply(op string) {
 	case "tick":
 		sb := x.subs[a]
 		mh := sb.handlers[b]
-		n0 := len(mh.h.got)
+		n0 := len(mh.h.events())
 		if !mh.ticker.Fire() {
 			x.bad("tick-lost", "the resync goroutine of %s did not take the tick", mh.h.id)
 			return
@@ -276,7 +291,9 @@ func (x *c18World) apply(op string) {
 		if len(replay) > 0 {
 			mh.want = append(mh.want, replay)
 		}
-		for i := 0; i < 20000 && len(mh.h.got) < n0+len(replay); i++ {
+		// wait for the asynchronous resync goroutine to have delivered the whole replay (watchdog 60 s: it
+		// only elapses if events are really missing, which the comparison below then reports)
+		for i := 0; i < 1200000 && len(mh.h.events()) < n0+len(replay); i++ {
 			time.Sleep(50 * time.Microsecond)
 		}
 	case "objAdd", "objUpdate", "objDelete":
@@ -359,26 +376,26 @@ func (x *c18World) check() {
 	cmp := func(mh *modelHandler, live bool) {
 		i := 0
 		for _, seg := range mh.want {
-			if i+len(seg) > len(mh.h.got) {
-				x.bad("handler-missed-events", "%s received %v, model expects (in order, batches unordered) %v", mh.h.id, mh.h.got, mh.want)
+			if i+len(seg) > len(mh.h.events()) {
+				x.bad("handler-missed-events", "%s received %v, model expects (in order, batches unordered) %v", mh.h.id, mh.h.events(), mh.want)
 				return
 			}
-			a := append([]string{}, mh.h.got[i:i+len(seg)]...)
+			a := append([]string{}, mh.h.events()[i:i+len(seg)]...)
 			b := append([]string{}, seg...)
 			sort.Strings(a)
 			sort.Strings(b)
 			if strings.Join(a, "|") != strings.Join(b, "|") {
-				x.bad("handler-wrong-events", "%s received %v, model expects %v", mh.h.id, mh.h.got, mh.want)
+				x.bad("handler-wrong-events", "%s received %v, model expects %v", mh.h.id, mh.h.events(), mh.want)
 				return
 			}
 			i += len(seg)
 		}
-		if i != len(mh.h.got) {
+		if i != len(mh.h.events()) {
 			key := "handler-extra-events"
 			if !live {
 				key = "removed-handler-still-notified"
 			}
-			x.bad(key, "%s received %v, model expects only %v", mh.h.id, mh.h.got, mh.want)
+			x.bad(key, "%s received %v, model expects only %v", mh.h.id, mh.h.events(), mh.want)
 		}
 	}
 	for _, sb := range x.subs {
@@ -766,7 +783,7 @@ func TestVerifC18Conc(t *testing.T) {
 				for ti := range progs {
 					if handlers[ti] != nil {
 						got := []string{}
-						for _, g := range handlers[ti].got {
+						for _, g := range handlers[ti].events() {
 							got = append(got, strings.ReplaceAll(g, "Leaf/", ""))
 						}
 						parts = append(parts, fmt.Sprintf("h%d=%v", ti, got))
